@@ -97,6 +97,7 @@ func run(cx *lib.Ctx) {
 	corrParseX(cx)
 	heredocOracle(cx)
 	stripOracle(cx)
+	corrTemplate(cx)
 }
 
 type caseInput struct {
